@@ -649,13 +649,10 @@ impl<'a> Searcher<'a> {
                         Ok(entry) => {
                             let mut path = entry.path();
                             let pass_ignores = if apply_gitignore || apply_hgignore || apply_dockerignore {
-                                let mut canonical_path = path.clone();
-
-                                if apply_gitignore || apply_hgignore || apply_dockerignore {
-                                    if let Ok(canonicalized) = crate::util::canonical_path(&path) {
-                                        canonical_path = PathBuf::from(canonicalized);
-                                    }
-                                }
+                                // an entry is judged by its own location (the canonical directory plus
+                                // its name): a symbolic link is not its target, and a dangling link or a
+                                // link loop has no canonical path of its own
+                                let canonical_path = Path::new(&canonical_path).join(entry.file_name());
 
                                 // Check the path against the filters
                                 #[cfg(feature = "git")]
